@@ -57,6 +57,44 @@ PROPS = {
                          "the JSON and gob clauses are checked on the implementation only (encoding/json, encoding/gob are not modelled for Ref)"],
         "assumptions": ["authority, if present, is a host with at most one port (OnePort)"],
     },
+    "C16": {
+        "modules": ["Props.C16"],
+        "driver": "driver_cache", "ops": ["simulate", "tracecheck"],
+        "level": "proof",
+        "level_text": "Lean 4 theorem history_independent over a heap-of-caches model in which the package-level cache is an ordinary writable object: after any history of calls (any programs, any loaders, caller caches or none) every call made without a caller cache behaves exactly like a run on a clone of the initial package cache, and that cache is unchanged (builtins_stay); the model's assumptions about the source (resCache assigned only under sync.Once and only ever cloned, no other package-level variable assigned, every entry point clones the caller's options first) are regenerated from /repo by go/ast on every run and discharged by decide; the implementation is checked against the model's prediction by comparing every call of random histories with the same call in a fresh process",
+        "technique": "Lean 4 proof (invariant over call histories) + regenerated go/ast side conditions discharged by decide + differential check against fresh-process runs",
+        "design_ref": "DESIGN.md 5 (C16)",
+        "extract_tags": ["cachefacts:"],
+        "trusted_base": [LEAN_KERNEL, DRIVER, HARNESS, "modelled not verified: the expander as a client of the protocol (a program over load / direct Set / direct Get whose continuations are arbitrary functions), sync.RWMutex and sync.Once as atomicity of the guarded block, documents as immutable values",
+                         EXTRACTOR + ": shared-state facts (package-level variables and their writers, lock held at every access of simpleCache.store, uses of resCache/onceCache, what each entry point does with the caller's *ExpandOptions, the call shape of schemaLoader.load)"],
+        "assumptions": ["the loader passed in the options (or the package-level PathLoader, which the package never assigns) is the only source of documents", "documents stored in a cache are not mutated afterwards"],
+    },
+    "C17": {
+        "modules": ["Props.C17"],
+        "driver": "driver_cache", "ops": ["tracecheck_mt", "simulate_sched", "simulate", "tracecheck"],
+        "race": True,
+        "level": "proof",
+        "level_text": "Lean 4 theorems over a small-step model of N threads sharing one cache, interleaved at the granularity of the code's atomic actions (Get, loader call, Set): under every schedule each finished thread holds the result of its solo sequential run (sched_independent), no configuration is stuck and every fair schedule terminates (no_stuck, sched_terminates), every schedule's trace is protocol-valid. The data-race clause cannot be exhibited by the model: it rests on the regenerated lock-discipline side conditions (every access of simpleCache.store under the right lock, sync.Once initialisation, no other package-level writes) and on running the concurrent scenarios under the Go race detector on every check (supporting evidence, not proof); the recorded global traces are validated by the model's validator and replayed through its scheduler under the observed schedule",
+        "technique": "Lean 4 proof over an interleaving model + regenerated lock-discipline side conditions (decide) + trace validation / schedule replay correspondence + race-detector runs",
+        "design_ref": "DESIGN.md 5 (C17)",
+        "extract_tags": ["cachefacts:"],
+        "trusted_base": [LEAN_KERNEL, DRIVER, HARNESS, "modelled not verified: the expander as a client of the protocol (a program over load / direct Set / direct Get whose continuations are arbitrary functions), sync.RWMutex and sync.Once as atomicity of the guarded block, documents as immutable values",
+                         EXTRACTOR + ": shared-state facts (package-level variables and their writers, lock held at every access of simpleCache.store, uses of resCache/onceCache, what each entry point does with the caller's *ExpandOptions, the call shape of schemaLoader.load)",
+                         "the Go race detector (data-race clause; partial: a race not exercised by the scenarios is not reported)"],
+        "assumptions": ["a caller-supplied ResolutionCache has atomic Get/Set", "threads sharing a cache agree on pseudo documents and read a pseudo key only after writing it themselves (Ideal); without it answers really depend on the schedule (proved example)"],
+    },
+    "C18": {
+        "modules": ["Props.C18"],
+        "driver": "driver_cache", "ops": ["tracecheck", "simulate", "avoids"],
+        "level": "proof",
+        "level_text": "Lean 4 theorems about the Get / loader / Set protocol of schemaLoader.load with direct Sets and Gets: for programs without bare cache reads a coherent cache never changes the result (cache_transparent, cache_congr, reuse_transparent), a URL is successfully fetched at most once per run and never when already cached, also across a chain of runs re-using the cache (fetch_at_most_once, fetch_at_most_once_chain), coherence is preserved; an executable trace validator is proved to imply fetch-at-most-once (validTrace_fetch_once) and every trace recorded from the real code through an instrumented ResolutionCache and PathLoader is checked by it and replayed through the model's interpreter; the shape of schemaLoader.load and the list of direct cache accesses are regenerated from source and pinned by decide",
+        "technique": "Lean 4 proof over a protocol model + regenerated go/ast side conditions (decide) + trace validation and replay correspondence + oracle over all pre-load subsets",
+        "design_ref": "DESIGN.md 5 (C18)",
+        "extract_tags": ["cachefacts:"],
+        "trusted_base": [LEAN_KERNEL, DRIVER, HARNESS, "modelled not verified: the expander as a client of the protocol (a program over load / direct Set / direct Get whose continuations are arbitrary functions), sync.RWMutex and sync.Once as atomicity of the guarded block, documents as immutable values",
+                         EXTRACTOR + ": shared-state facts (package-level variables and their writers, lock held at every access of simpleCache.store, uses of resCache/onceCache, what each entry point does with the caller's *ExpandOptions, the call shape of schemaLoader.load)"],
+        "assumptions": ["the supplied cache is coherent: every entry equals what the loader returns for that URL (or is a pseudo document the run itself writes before reading)"],
+    },
 }
 
 # properties not (yet) claimed, with the reason
